@@ -1,5 +1,7 @@
 import Solvor.Pack.KnapDP
+import Solvor.Pack.Front
 import Solvor.Pack.BinLemmas
+import Solvor.Pack.BinOpt
 /-!
 Pack: the property theorems of C16 (helper lemmas are in `Lemmas.lean`, `KnapDP.lean`,
 `BinLemmas.lean`).
@@ -12,6 +14,7 @@ below `k`, each of the bins `0..k-1` is used, and every bin's exact load is with
 -/
 namespace Solvor.Pack
 open Solvor.Gen (Status)
+attribute [-simp] List.getD_eq_getElem?_getD
 
 /-! ## T-spec: verified checkers and the definitional optimum -/
 
@@ -145,6 +148,142 @@ theorem greedy_fallback_valid (items : List (Rat × Rat)) (cap : Rat) (minimize 
   · intro i hi; exact h3 i (hp.mem_iff.1 hi)
   · rw [selW_perm items hp]; exact h4
 
+/-! ## T-model: the whole of `solve_knapsack` (front end included) in exact arithmetic -/
+
+/-- **knapsack_mirror_feasible.**  Whatever the tolerances, the scale and the branch taken (DP or
+greedy fallback), the mirror of `solve_knapsack` at `Rat` returns distinct in-range indices whose
+weight is within `capacity + weightTol` (within `capacity` on the fallback branch), and the reported
+objective is the sum of their values. -/
+theorem knapsack_mirror_feasible (c : KConsts Rat) (htol : 0 ≤ c.weightTol) (vals wts : List Rat)
+    (vInt wInt : List Bool) (cap : Rat) (minimize : Bool) (hcap : 0 ≤ cap) (r : KnapRes Rat)
+    (hr : knapMirror ratOps c vals wts vInt wInt cap minimize = .ok r) :
+    r.sel.Nodup ∧ (∀ i ∈ r.sel, i < vals.length) ∧ selW (wts.zip vals) r.sel ≤ cap + c.weightTol ∧
+    r.objective = selV (wts.zip vals) r.sel ∧ (r.fallback = true → selW (wts.zip vals) r.sel ≤ cap) := by
+  unfold knapMirror at hr
+  by_cases hn : vals.length = 0
+  · rw [if_pos hn] at hr
+    cases hr
+    refine ⟨List.nodup_nil, by simp, ?_, rfl, by simp⟩
+    show (0 : Rat) ≤ cap + c.weightTol
+    grind
+  · rw [if_neg hn] at hr
+    by_cases hlen : wts.length = vals.length
+    · rw [if_neg (by simpa using hlen)] at hr
+      have hlt : ratOps.lt cap ratOps.zero = false := by
+        show decide (cap < 0) = false
+        exact decide_eq_false (by grind)
+      rw [hlt] at hr
+      simp only [Bool.false_eq_true, if_false] at hr
+      have hl1 : wts.length ≤ (wInt ++ List.replicate wts.length false).length := by simp
+      have hl2 : vals.length ≤ (vInt ++ List.replicate vals.length false).length := by simp
+      generalize hsel : (knapInt ratOps _ (toIntCapacity ratOps c cap wts).1).1 = sel at hr
+      by_cases hchk : ratOps.lt (ratOps.add cap c.weightTol)
+          (sumAt ratOps (wts.zip (wInt ++ List.replicate wts.length false)) sel) = true
+      · rw [if_pos hchk] at hr
+        cases hr
+        have hf := greedy_fallback_valid (wts.zip vals) cap minimize hcap
+        refine ⟨hf.nodup, ?_, ?_, ?_, fun _ => hf.fits⟩
+        · intro i hi; have := hf.inRange i hi; simp at this; omega
+        · have := hf.fits; show selW (wts.zip vals) _ ≤ cap + c.weightTol; grind
+        · show sumAt ratOps _ _ = _
+          rw [sumAt_rat _ _ _ hl2, selV_zip _ _ _ hlen]
+      · rw [if_neg hchk] at hr
+        cases hr
+        obtain ⟨_, p1, p2, _, _, _⟩ := knapsack_dp_optimal
+          (((scaleWeights ratOps c wts (toIntCapacity ratOps c cap wts).2).map (·.1)).zip
+            (vals.map fun v => if minimize = true then ratOps.sub ratOps.zero v else v))
+          (toIntCapacity ratOps c cap wts).1
+        rw [hsel] at p1 p2
+        refine ⟨p1.imp (fun h => Nat.ne_of_lt h), ?_, ?_, ?_, by simp⟩
+        · intro i hi
+          have := p2 i hi
+          simp [scaleWeights] at this
+          omega
+        · have : ¬ (cap + c.weightTol < sumAt ratOps (wts.zip (wInt ++ List.replicate wts.length false)) sel) := by
+            simpa [ratOps] using hchk
+          rw [sumAt_rat _ _ _ hl1] at this
+          show selW (wts.zip vals) sel ≤ _
+          rw [selW_zip _ _ _ hlen]
+          exact Rat.not_lt.1 this
+        · show sumAt ratOps _ _ = _
+          rw [sumAt_rat _ _ _ hl2, selV_zip _ _ _ hlen]
+    · rw [if_pos (by simpa using hlen)] at hr
+      cases hr
+
+
+/-- **knapsack_lossless_optimal.**  The status rule of the repaired `solve_knapsack` is right: in exact
+arithmetic (scaling tolerance 0), for non-negative weights and capacity, whenever the mirror reports
+OPTIMAL (the DP branch with `lossless = True`) the returned selection is feasible for the *original*
+instance and no feasible selection has a better (sign-adjusted: `minimize` negates) total value. -/
+theorem knapsack_lossless_optimal (c : KConsts Rat) (hc : ExactConsts c) (vals wts : List Rat)
+    (vInt wInt : List Bool) (cap : Rat) (minimize : Bool) (hcap : 0 ≤ cap) (hw : ∀ w ∈ wts, 0 ≤ w)
+    (r : KnapRes Rat) (hr : knapMirror ratOps c vals wts vInt wInt cap minimize = .ok r)
+    (hopt : r.status = .OPTIMAL) :
+    KnapFeasible (wts.zip vals) cap r.sel ∧
+    ∀ sel, KnapFeasible (wts.zip vals) cap sel →
+      selV (wts.zip (vals.map fun v => if minimize then 0 - v else v)) sel ≤
+      selV (wts.zip (vals.map fun v => if minimize then 0 - v else v)) r.sel := by
+  unfold knapMirror at hr
+  by_cases hn : vals.length = 0
+  · rw [if_pos hn] at hr
+    cases hr
+    have hv : vals = [] := List.eq_nil_of_length_eq_zero hn
+    subst hv
+    refine ⟨⟨List.nodup_nil, by simp, by simpa [selW] using hcap⟩, fun sel hf => ?_⟩
+    have : sel = [] := by
+      cases sel with
+      | nil => rfl
+      | cons i s => have := hf.inRange i List.mem_cons_self; simp at this
+    subst this
+    exact Rat.le_refl
+  · rw [if_neg hn] at hr
+    by_cases hlen : wts.length = vals.length
+    · rw [if_neg (by simpa using hlen)] at hr
+      have hlt : ratOps.lt cap ratOps.zero = false := by
+        show decide (cap < 0) = false
+        exact decide_eq_false (by grind)
+      rw [hlt] at hr
+      simp only [Bool.false_eq_true, if_false] at hr
+      generalize hsel : (knapInt ratOps _ (toIntCapacity ratOps c cap wts).1).1 = sel at hr
+      by_cases hchk : ratOps.lt (ratOps.add cap c.weightTol)
+          (sumAt ratOps (wts.zip (wInt ++ List.replicate wts.length false)) sel) = true
+      · rw [if_pos hchk] at hr
+        cases hr
+        cases hopt
+      · rw [if_neg hchk] at hr
+        cases hr
+        simp only at hopt ⊢
+        have hloss : ((scaled ratOps c cap (toIntCapacity ratOps c cap wts).2).2 &&
+            (scaleWeights ratOps c wts (toIntCapacity ratOps c cap wts).2).all (·.2)) = true := by
+          by_cases h : ((scaled ratOps c cap (toIntCapacity ratOps c cap wts).2).2 &&
+            (scaleWeights ratOps c wts (toIntCapacity ratOps c cap wts).2).all (·.2)) = true
+          · exact h
+          · rw [if_neg h] at hopt; cases hopt
+        rw [Bool.and_eq_true] at hloss
+        have hsv : (vals.map fun v => if minimize = true then ratOps.sub ratOps.zero v else v) =
+            (vals.map fun v => if minimize = true then 0 - v else v) := rfl
+        rw [hsv] at hsel
+        have hlen' : wts.length = (vals.map fun v => if minimize = true then 0 - v else v).length := by
+          simpa using hlen
+        have hsnd : (wts.zip (vals.map fun v => if minimize = true then 0 - v else v)).map (·.2) =
+            (vals.map fun v => if minimize = true then 0 - v else v) := by
+          rw [List.map_snd_zip]; omega
+        have hmain := knapsack_scaled_optimal (wts.zip (vals.map fun v => if minimize = true then 0 - v else v)) cap
+          (toIntCapacity ratOps c cap wts).2 (toIntCapacity_scale_pos c hc cap wts)
+          ((scaleWeights ratOps c wts (toIntCapacity ratOps c cap wts).2).map (·.1))
+          (toIntCapacity ratOps c cap wts).1
+          (by rw [scaleWeights_length]; simp; omega)
+          (by
+            intro i hi
+            have hi' : i < wts.length := by simp at hi; omega
+            rw [scaleWeights_exact c hc wts hw _ hloss.2 i hi', getD_zip_pair _ _ _ hlen'])
+          (toIntCapacity_exact c hc cap hcap wts hloss.1)
+        rw [hsnd, hsel] at hmain
+        refine ⟨(feasible_zip_congr _ _ _ _ _ hlen' hlen).1 hmain.1, fun sel' hf => ?_⟩
+        exact hmain.2 sel' ((feasible_zip_congr _ _ _ _ _ hlen hlen').1 hf)
+    · rw [if_pos (by simpa using hlen)] at hr
+      cases hr
+
 /-! ## Bin packing -/
 
 /-- The Boolean checker evaluated on the implementation's assignments decides exactly
@@ -220,6 +359,42 @@ theorem binpack_valid (sizes : List Rat) (cap : Rat) (useBest dec : Bool)
     show (packRun ratOps sizes cap useBest dec).bins.length ≤ k'
     omega
 
+/-- **minBinsP_le.**  The enumerator-based bound is a lower bound on every valid packing: for
+non-negative sizes and a positive capacity no valid packing uses fewer than `minBinsP sizes cap`
+bins.  (Together with a packing into `minBinsP` bins accepted by `chkPack` – produced by the fast
+search and checked on every instance – this certifies the optimum used for the 11/9 test.) -/
+theorem minBinsP_le (sizes : List Rat) (cap : Rat) (hcap : 0 < cap) (hs : ∀ s ∈ sizes, 0 ≤ s)
+    {asg : List Nat} {k : Nat} (h : ValidPack sizes cap asg k) : minBinsP sizes cap ≤ k := by
+  unfold minBinsP
+  simp only
+  have hlb : (sizes.sum / cap).ceil.toNat ≤ k := by
+    have := ceil_le_of_le_mul hcap h.sum_le
+    omega
+  refine leastFrom_le _ k ?_ _ _ hlb
+  have hperm := itemsDesc_perm sizes
+  have hmap : (itemsDesc sizes).map (fun i => sizes.getD i 0) =
+      ((itemsDesc sizes).map fun i => (sizes.getD i 0, asg.getD i 0)).map (·.1) := by
+    rw [List.map_map]; rfl
+  rw [hmap]
+  apply packsInto_complete cap _ (List.replicate k cap) [] k (by simp)
+  · intro p hp
+    obtain ⟨i, hi, rfl⟩ := List.mem_map.1 hp
+    have hin : i < sizes.length := List.mem_range.1 (hperm.mem_iff.1 hi)
+    have : sizes.getD i 0 = sizes[i] := by simp [List.getD_eq_getElem?_getD, hin]
+    refine ⟨by rw [this]; exact hs _ (List.getElem_mem hin), by simpa using h.lt i hin⟩
+  · intro b hb
+    have hb' : b < k := by simpa using hb
+    have e1 : pairLoad ((itemsDesc sizes).map fun i => (sizes.getD i 0, asg.getD i 0)) b =
+        pload sizes asg (itemsDesc sizes) b := by
+      unfold pairLoad pload
+      rw [List.filter_map, List.map_map]
+      rfl
+    have e2 : (List.replicate k cap).getD b 0 = cap := by
+      simp [List.getD_eq_getElem?_getD, hb']
+    rw [e1, e2, pload_perm sizes asg hperm b]
+    exact h.load b hb'
+
+
 /-- The inputs excluded by the hypotheses of `binpack_valid` are exactly those the code rejects or
 answers trivially: no items gives `()`, 0 bins, OPTIMAL; a non-positive capacity, an item larger
 than the capacity or a negative size raises `ValueError`. -/
@@ -263,6 +438,19 @@ example := knapsack_scaled_optimal [((1 : Rat) / 10, 10), ((2 : Rat) / 10, 20), 
   ((5 : Rat) / 10) 10 (by decide +kernel) [1, 2, 3] 5 rfl (by decide +kernel) (by decide +kernel)
 example : KnapFeasible [(3, 5), (2, 4)] 4 (greedyFallback ratOps [(3, 5), (2, 4)] 4 false) :=
   greedy_fallback_valid _ _ _ (by decide +kernel)
+/-- constants satisfying `ExactConsts` (scale cap 2 instead of 1000 to keep the example small) -/
+def exConsts : KConsts Rat := ⟨100000, 2, 0, 0, (1 : Rat) / 2, 1⟩
+example : ExactConsts exConsts := ⟨rfl, rfl, by decide +kernel, by decide +kernel, by decide +kernel⟩
+/-- weights 0.5, 1.5, capacity 2.5: scaled by 2 without loss, so the mirror says OPTIMAL and takes both -/
+example : (knapMirror ratOps exConsts [3, 4] [(1 : Rat) / 2, (3 : Rat) / 2] [] [] ((5 : Rat) / 2) false).toOption.map
+    (fun r => (r.status, r.sel, r.objective)) = some (.OPTIMAL, [0, 1], 7) := by decide +kernel
+/-- weights 0.5, 1.3: scaling by 2 loses 0.6 -> FEASIBLE -/
+example : (knapMirror ratOps exConsts [3, 4] [(1 : Rat) / 2, (13 : Rat) / 10] [] [] ((5 : Rat) / 2) false).toOption.map
+    (fun r => r.status) = some .FEASIBLE := by decide +kernel
+/-- the enumerator finds a packing of 8,4,4,1,0 into two bins of 10 and none into one -/
+example : packsInto 10 [8, 4, 4, 1, 0] [] 2 = true ∧ packsInto 10 [8, 4, 4, 1, 0] [] 1 = false := by decide +kernel
+example : minBinsP [4, 8, 1, 4, 0] 10 ≤ 2 :=
+  minBinsP_le _ _ (by decide +kernel) (by decide +kernel) ((chkPack_iff _ _ [0, 1, 1, 0, 0] 2).1 (by decide +kernel))
 /-- items of sizes 4,8,1,4,0 into bins of 10 with best-fit: two bins (the 1 goes next to the 8) -/
 example : (pack ratOps [4, 8, 1, 4, 0] 10 true false).toOption.map (fun r => (r.asg, r.k)) =
     some ([0, 1, 1, 0, 0], 2) := by decide +kernel
